@@ -371,7 +371,7 @@ def reproducibility_violations(mod, path, case, res):
     r2 = safe_run(mod, case)
     if [r2['digest'], sorted(set(v[0] for v in r2['viol']))] != mine:
         return [('%s.1' % mod.ID, 'the same case executed twice in one interpreter gives different traces/verdicts')]
-    for hs in ('1', '77', '4242'):
+    for hs in ('1', '77', '4242', '14', '3', '1000003', '271828', '31337', '5', '99991'):
         env = dict(os.environ)
         env['PYTHONHASHSEED'] = hs
         p = subprocess.run([os.path.join(VERIF, 'check'), mod.ID, '--case-digest', path], capture_output=True,
@@ -532,7 +532,10 @@ def run_check(pid, tier, base_seed, runs=None, budget=None, jobs=None):
                                                cfg.get('det_children', 1))
     if not det_ok:
         if getattr(mod, 'NONDETERMINISM_IS_VIOLATION', False):
-            viols.append((-1, [('%s.1' % pid, 'trace not reproducible: ' + det_msg)]))
+            import re as _re
+            m_ = _re.search(r'indices \[(\d+)', det_msg)
+            # the first run of the sample whose trace differs stands for the violation (its case is the replay file)
+            viols.append((int(m_.group(1)) if m_ else -1, [('%s.1' % pid, 'trace not reproducible: ' + det_msg)]))
         else:
             # decided after the batch: if an oracle fails as well, that violation (with the runs that must precede it)
             # is what gets reported; irreproducibility alone is not this property's business
